@@ -37,6 +37,7 @@ def run(chk):
         "IR abstract machine spec/IRSem.v (hand-written specification; agreement with gcc/LLVM checked by C06)",
         "IR dumper tools/harness/irdump.py and translator tools/py2coq (gen/IRAst.v)",
         "the per-kernel claim 'returns on the machine' is observed on swept inputs only (exploration), not proved for all inputs",
+        "tools/interpose/redzone.c (LD_PRELOAD allocator with canaries) observing the LLVM-compiled kernels: evidence, not proof",
     ]
     ok = chk.regen(["IRAst.v"])
     if ok:
@@ -75,8 +76,73 @@ def run(chk):
     # grow steps on the IR machine (coq/props/TIE_append.v)
     from props._tie import run_tie
     run_tie(chk, ["append"])
+    redzone_sweep(chk, caps)
     if not quick:
         asan_sweep(chk)
+
+
+def redzone_sweep(chk, caps):
+    """the REAL LLVM-compiled kernels under the red-zone allocator (LD_PRELOAD): a write past the end of an array the
+    kernel allocated is reported when the block is resized or released -- observes the lowering of the capacity tests
+    (_ir_to_llvm.py) which the IR machine cannot see"""
+    import json
+    from concurrent.futures import ThreadPoolExecutor
+
+    from vlib.core import BUILD, GUARD, PY, VERIF, impl_env, sh
+
+    so = BUILD / "interpose" / "libredzone.so"
+    rc, out, err = sh(["bash", str(VERIF / "tools" / "interpose" / "build_redzone.sh")], timeout=120)
+    if not so.exists():
+        chk.broken.append({"kind": "harness", "what": "red-zone allocator did not build", "stderr": (out + err)[-800:]})
+        return
+    base = BUILD / "redzone"
+    base.mkdir(parents=True, exist_ok=True)
+    quick = chk.tier == "quick"
+
+    def one(cap):
+        log = base / f"rz_{chk.tier}_{cap or 'default'}.log"
+        if log.exists():
+            log.unlink()
+        cfg = {"seed": chk.seed * 53 + (int(cap) if cap else 9), "priority": GROWTH if cap else GROWTH[:4],
+               "max_problems": (len(GROWTH) + 40) if quick else 400, "n_inputs": 2 if quick else 3, "fmt_cap": 2 if quick else 5}
+        env = impl_env({GUARD: cap or "", "LD_PRELOAD": str(so), "REDZONE_LOG": str(log)})
+        if not cap:
+            env.pop(GUARD, None)
+        r = sh([PY, "-B", str(VERIF / "tools" / "harness" / "c05_redzone.py")], env=env, input=json.dumps(cfg), timeout=1500, cwd=str(VERIF))
+        return cap, r, log
+
+    with ThreadPoolExecutor(max_workers=4) as ex:
+        results = list(ex.map(one, caps))
+    for cap, (rc, out, err), log in results:
+        cases = {}
+        done = None
+        for l in out.splitlines():
+            if l.startswith("CASE "):
+                k, js = l[5:].split(" ", 1)
+                cases[int(k)] = json.loads(js)
+            elif l.startswith("DONE "):
+                done = json.loads(l[5:])
+        for k, m in cases.items():
+            chk.case(("redzone", cap, m["assignment"], json.dumps(m["formats"], sort_keys=True), json.dumps(m["inputs"], sort_keys=True)))
+        chk.count(f"redzone_runs_cap={cap or 'default'}", len(cases))
+        cur, hits = 0, {}
+        if log.exists():
+            for l in log.read_text().splitlines():
+                if l.startswith("M "):
+                    cur = int(l[2:])
+                elif l.startswith("OVERFLOW"):
+                    hits.setdefault(cur, []).append(l)
+        for k, lines in list(hits.items())[:6]:
+            m = cases.get(k) or (cases.get(max(cases)) if cases and k == 0 else {})
+            chk.violation("the compiled (LLVM JIT) kernel wrote past the end of an array it had allocated (red-zone allocator)",
+                          dict(m, capacity=cap, allocator_report=lines[:4], backend="llvm"))
+        if done is None or rc != 0:
+            last = cases.get(max(cases)) if cases else {}
+            if done is None or "error" in (done or {}):
+                chk.violation("the process running the compiled kernels under the red-zone allocator crashed or did not finish "
+                              f"(exit status {rc}); last case started:", dict(last or {}, capacity=cap, stderr_tail=err[-1500:], done=done))
+        elif done.get("overflows_seen_by_allocator") and not hits:
+            chk.broken.append({"kind": "harness", "what": "allocator counted overflows but the log has none", "done": done})
 
 
 def asan_sweep(chk):
